@@ -197,7 +197,10 @@ def _static_job(args):
     ne = 0
     nontriv = set()
     for ci, cfg in enumerate(cfgs):
-        ims = ['identity'] + (images if (thorough or ci % 4 == 0) else [])
+        # quick: every fourth configuration is also run through one affine
+        # image, the images taking turns (all four are used in every run)
+        ims = ['identity'] + (images if thorough else (
+            [images[(ci // 4) % len(images)]] if ci % 4 == 0 else []))
         for im in ims:
             c = image(cfg, im)
             n, probs = _check_cfg(c, table, skip, [ci, im])
@@ -432,7 +435,8 @@ def dense_configs(seed):
 
 def run(ctx):
     cfgs = list(static_configs(ctx.thorough, ctx.seed))
-    images = IMG if ctx.thorough else [IMG[ctx.seed % len(IMG)]]
+    k = ctx.seed % len(IMG)
+    images = IMG if ctx.thorough else IMG[k:] + IMG[:k]
     chunk = max(20, len(cfgs) // (ctx.ncpu * 12))
     jobs = [(cfgs[i:i + chunk], images, ctx.thorough)
             for i in range(0, len(cfgs), chunk)]
@@ -577,7 +581,8 @@ def run(ctx):
     vs = [Violation(k, w, rep) for k, (sz, w, rep) in sorted(viols.items())]
     table = U.algos(ctx.thorough)
     cov = dict(
-        states=ncfg * (1 + len(images)) + nhist,
+        states=ncfg + (ncfg * len(images) if ctx.thorough
+                       else (ncfg + 3) // 4) + nhist,
         transitions=ne + ntrans + nthr,
         traces_validated_against_impl=ne + ntrans + nthr,
         static_configurations=ncfg, images=['identity'] + images,
